@@ -58,16 +58,32 @@ type Case struct {
 }
 
 // fails accumulates oracle failures so that a violation message lists every
-// oracle that fired (useful for the sensitivity runs).
-type fails struct{ msgs []string }
-
-func (f *fails) add(format string, a ...any) {
-	if len(f.msgs) < 12 {
-		f.msgs = append(f.msgs, fmt.Sprintf(format, a...))
-	}
+// oracle that fired (useful for the sensitivity runs): the first message of each
+// oracle (keyed by its format string) and how many times it fired.
+type fails struct {
+	msgs  []string
+	count map[string]int
+	keys  []string
 }
 
-func (f *fails) String() string { return strings.Join(f.msgs, " || ") }
+func (f *fails) add(format string, a ...any) {
+	if f.count == nil {
+		f.count = map[string]int{}
+	}
+	if f.count[format] == 0 {
+		f.keys = append(f.keys, format)
+		f.msgs = append(f.msgs, fmt.Sprintf(format, a...))
+	}
+	f.count[format]++
+}
+
+func (f *fails) String() string {
+	var out []string
+	for i, k := range f.keys {
+		out = append(out, fmt.Sprintf("%s [x%d]", f.msgs[i], f.count[k]))
+	}
+	return strings.Join(out, " || ")
+}
 
 // named is one proof element with its path.
 type named struct {
@@ -86,7 +102,7 @@ func crossDistinct(f *fails, what string, els [][]named, eq func(a, b reflect.Va
 						continue
 					}
 					if eq(a.v, b.v) {
-						f.add("(a) %s: proof %d %s == proof %d %s (two proofs of the same witness share an element)", what, i, a.name, j, b.name)
+						f.add("(a) "+what+": "+a.name+" of one proof == "+b.name+" of another proof of the same witness (first: proofs %d and %d)", i, j)
 					}
 				}
 			}
